@@ -130,6 +130,16 @@ def check_state(v, assumption, acc, case, nfix):
     except BaseException as e:
         acc.violation(None, case, {"what": "assume/reduce raised", "exc": repr(e), "model": show(v), "assumption": repr(d)})
         return
+    try:
+        one = state()
+        r_a = structure(one.reduce())
+        r_b = structure(one.reduce())
+    except BaseException as e:
+        acc.violation(None, case, {"what": "reduce twice on one object raised", "exc": repr(e), "model": show(v)})
+        return
+    if r_a != r_b or r_a != structure(red):
+        acc.violation(None, case, {"what": "reduce() called twice on one object (or on an identical fresh object) gives different results", "model": show(v), "assumption": repr(d)})
+        return
     acc.n("states_checked")
     acc.n("transitions", 2 + (1 if d else 0))
     acc.state((v, assumption))
